@@ -52,7 +52,12 @@ def h_round(ctx, case):
     ch = case.get('chunks')
     write_h5ad_x(env, path, dense, enc, dense_chunks=tuple(ch)
                  if (ch and enc == 'dense') else None)
-    vals = [v for row in dense for v in row if v is not None]
+    if enc == 'csc':
+        # stored column by column
+        vals = [dense[r][c] for c in range(nc) for r in range(nr)
+                if dense[r][c] is not None]
+    else:
+        vals = [v for row in dense for v in row if v is not None]
     if not vals:
         raise core.PathAbort('no stored value')
     try:
